@@ -104,6 +104,7 @@ OffsetPair(pos) ==
 (* start/end: log start / log end offset; ts[o+1]: timestamp of the record *)
 (* at offset o (o in 0..end-1; records below start are deleted);           *)
 (* lerr: error the leader answers when asked for this partition's offsets; *)
+(* lerrt: error it answers to lookups by timestamp (ts >= 0) only;         *)
 (* merr: error reported in the metadata of the partition;                  *)
 (* down: brokers whose address accepts no connection.                      *)
 (***************************************************************************)
@@ -180,7 +181,7 @@ AfterCommit(committed, commits) == committed \o commits
 (* (sanity of the definitions themselves, independent of any code).        *)
 (***************************************************************************)
 AnchorPart == [id |-> 0, leader |-> 1, replicas |-> <<1, 2>>, isr |-> <<1>>, start |-> 1, end |-> 4,
-               ts |-> <<10, 10, 20, 20>>, lerr |-> 0, merr |-> 0]
+               ts |-> <<10, 10, 20, 20>>, lerr |-> 0, merr |-> 0, lerrt |-> 0]
 AnchorCS == [brokers |-> <<[id |-> 1, host |-> "b1", port |-> 9092], [id |-> 2, host |-> "b2", port |-> 9092]>>, controller |-> 1, down |-> <<2>>,
              topics |-> << [name |-> "ta", parts |-> <<AnchorPart, [AnchorPart EXCEPT !.id = 1, !.leader = 2]>>] >>,
              groups |-> << [id |-> "g", coord |-> 1, committed |-> << [t |-> "ta", p |-> 0, off |-> 3] >>] >>]
